@@ -345,7 +345,10 @@ def run(ck):
         # IT only: multi-block compressed samples (3); highly compressible PCM (silence, constants, silent tails) through the
         # IT 2.14 / 2.15 compressed path with the narrowest codes, stored last in the file (4)
         nquiet = {"quick": 10, "thorough": 40}[ck.tier]
-        for cls, cnt in ((5, nbig[0]), (6, nbig[1]), (9, nbig[3])) + (((3, nbig[2]), (4, nquiet)) if fmt == "it" else ()):
+        # MOD only (4): the header conventions of a Protracker module (tracker fingerprint) with every loop-position corner
+        nptk = {"quick": 6, "thorough": 24}[ck.tier]
+        for cls, cnt in ((5, nbig[0]), (6, nbig[1]), (9, nbig[3])) + (((3, nbig[2]), (4, nquiet)) if fmt == "it" else ()) + \
+                (((4, nptk),) if fmt == "mod" else ()):
             for j in range(cnt):
                 reqs.append("gen %s %s-s%d-%d %d %d" % (fmt, fmt, cls, j, ck.seed * 100003 + 31 * j + cls, cls))
         if fmt == "xm":
@@ -401,7 +404,8 @@ def run(ck):
             bump(fmt + "_oracle_cases")
             sp = (meta.get("opts") or "").split(" ")[0]
             if sp in ("special=3", "special=4", "special=5", "special=6", "special=9"):
-                bump(fmt + "_oracle_" + {"special=3": "multiblock_compressed", "special=4": "compressible_last_sample",
+                bump(fmt + "_oracle_" + {"special=3": "multiblock_compressed",
+                                         "special=4": "compressible_last_sample" if fmt == "it" else "protracker_fingerprint",
                                          "special=5": "samples_beyond_64KiB",
                                          "special=6": "samples_beyond_1MiB", "special=9": "format_maxima"}[sp])
             bump(fmt + "_oracle_bytes", len(data))
